@@ -914,9 +914,14 @@ def execute(plan: dict) -> dict:
                     w.count("F7_clock")
                 elif k == "envg":
                     # the application changes an environment global between loads
-                    w.env.globals["gv"] = op["v"]
-                    w.cenv.globals["gv"] = op["v"]
-                    w.cfg["env_globals"] = {**(w.cfg.get("env_globals") or {}), "gv": op["v"]}
+                    if op["v"] is None:      # the global is removed again (globals may become empty)
+                        w.env.globals.pop("gv", None)
+                        w.cenv.globals.pop("gv", None)
+                        w.cfg["env_globals"] = {}
+                    else:
+                        w.env.globals["gv"] = op["v"]
+                        w.cenv.globals["gv"] = op["v"]
+                        w.cfg["env_globals"] = {**(w.cfg.get("env_globals") or {}), "gv": op["v"]}
                     w.count("env_globals_changed")
                 elif k == "par":
                     do_par(w, op)
@@ -1105,7 +1110,7 @@ def gen_plan(seed: int, tier: str) -> dict:
         elif r < 0.875:
             ops.append({"op": "advance", "dt": rng.choice([-3600, 0, 5, 86400 * 30])})
         elif r < 0.89:
-            ops.append({"op": "envg", "v": rng.choice(["E1", "E2", ""])})
+            ops.append({"op": "envg", "v": rng.choice(["E1", "E2", "", None, None])})
             ops.append({"op": "lr", "id": nid(), **lr_fields()})
         else:
             tasks = []
